@@ -224,6 +224,12 @@ def stop_source_coverage(cov, ctx, prop_id):
         ctx.extra["source_coverage_of_anchored_files"] = {"error": traceback.format_exc()[-300:]}
 
 
+def unknown_failing(ctx):
+    """failing inputs of this run that are not listed known findings"""
+    known = [k["signature"] for k in load_known() if k["property"] == ctx.prop]
+    return [f for f in ctx.failing if f.get("signature") not in known]
+
+
 def extra_seeds_if_source_changed(ctx, mod, prop_id):
     """
     The working tree under test is fingerprinted function by function (harness/srcmap.py) against the tree the Lean models were
